@@ -111,7 +111,7 @@ CLAIMS = {
         "unbounded counts, interface flags, ACL slot contents through add_rule, link loads, NMNE counts over two "
         "steps) and every leaf is compared with the documented encoding computed from the objects; scan-gated and "
         "true-health configurations; non-ON nodes and padding slots read as defaults; slot -> component assignment; self-composition over two consecutive observations: a host observed ON with non-default values and then going down reads exactly like the same host going down without that history.",
-        "note": "Bounds: one family symbolic at a time (service / application / file / folder / power+counters / ACL / link / NMNE), scan options declared for all nodes or per host with the opposite at the nodes level, thresholds of the generated scenario, 4 observed ACL slots, 9 link loads; firewall leaves (six ACL lists, three ports, ON/OFF) on a generated firewall-with-DMZ scenario. User-session leaves are not covered. Trusted: CrossHair/z3, the reference encodings (from the observation classes' docstrings).",
+        "note": "Bounds: one family symbolic at a time (service / application / file / folder / power+counters / ACL / link / NMNE), scan options declared for all nodes or per host with the opposite at the nodes level, thresholds of the generated scenario, 4 observed ACL slots, 9 link loads; firewall leaves (six ACL lists, three ports, ON/OFF) on a generated firewall-with-DMZ scenario; the users leaves of a host with 0-5 remote sessions opened through the real terminal and an optional local session. Trusted: CrossHair/z3, the reference encodings (from the observation classes' docstrings).",
         "technique": TECH_S,
     },
     "C08": {
